@@ -2,6 +2,7 @@ package spec
 
 import (
 	"go/ast"
+	"go/types"
 	"strings"
 
 	"lndlint/internal/an"
@@ -70,7 +71,7 @@ func runC19(r *an.Run) {
 				}
 				if name == "getEdgeLocal" {
 					bw := f.Calls(an.CalleeNamed("availableChanBandwidth"), false)
-					if need(o, f, "availableChanBandwidth", bw, 1) {
+					if needExactly(o, f, "availableChanBandwidth", bw, 1) {
 						a := f.ArgCanon(bw[0])
 						if a[0] != "$elem($recv.edges).policy.ChannelID" || !an.Match(f, amt, callArg(bw[0], 1)) {
 							o.FailAt(f.ID+"#bandwidth-query", bw[0].Where(), "bandwidth is queried for (%s, %s), expected this edge's channel and amt", a[0], an.Text(callArg(bw[0], 1)))
@@ -109,7 +110,7 @@ func runC19(r *an.Run) {
 		})
 
 	r.Obl("search-adopts-only-checked-predecessors", "GUARD",
-		"in findPath the only writer of distance[...] is the processEdge closure, below: not (totalFee > 0 and totalFee > FeeLimit), edgeProbability != 0, incomingCltv <= absoluteCltvLimit, probability >= MinProbability, routingInfoSize <= sphinx.MaxRoutingPayloadSize; totalFee = amountToSend - amt where amountToSend is computed after the clamp of the inbound fee; the recorded node state carries netAmountReceived = amountToSend + outboundFee, incomingCltv = next hop's incomingCltv + this policy's TimeLockDelta and outboundFee = policy.ComputeFee(amountToSend) (zero delta and fee for the source); processEdge is called only below the self-cycle and last-hop restrictions, a non-nil edge and validated features, with the node being expanded",
+		"in findPath the only writer of distance[...] is the processEdge closure, below: not (totalFee > 0 and totalFee > FeeLimit), edgeProbability != 0, incomingCltv <= absoluteCltvLimit, probability >= MinProbability, routingInfoSize <= sphinx.MaxRoutingPayloadSize; totalFee = amountToSend - amt where amountToSend is computed after the clamp of the inbound fee; absoluteCltvLimit = r.CltvLimit + finalHtlcExpiry, probability = next hop's probability * ProbabilitySource(from, to, amountToSend, capacity), routingInfoSize = next hop's size + the edge's own payload size function of (amountToSend, next hop's incomingCltv, the edge's channel) (zero for the source); each of these locals has that single definition; the recorded node state carries netAmountReceived = amountToSend + outboundFee, incomingCltv = next hop's incomingCltv + this policy's TimeLockDelta and outboundFee = policy.ComputeFee(amountToSend) (zero delta and fee for the source) and is stored as built; the search starts at the target with amt, finalHtlcExpiry, probability 1 and lastHopPayloadSize(r, finalHtlcExpiry, amt); processEdge is called only below the self-cycle and last-hop (fromNode == *r.LastHop) restrictions, a non-nil edge and validated features, with the node being expanded; the feature cache stores a vector only after both validations passed",
 		"a predecessor adopted without one of these checks makes the returned route exceed the fee or CLTV limit, or not fit the onion", 16,
 		func(o *an.Obl) {
 			f := p.Func(rt + "findPath")
@@ -141,19 +142,23 @@ func runC19(r *an.Run) {
 					}
 				}
 			}
-			if !need(o, pe, "distance[fromVertex] = withDist", writes, 1) {
+			if !needExactly(o, pe, "distance[fromVertex] = withDist", writes, 1) {
 				return
 			}
 			w := writes[0]
+			// the parameters the definitions below are written in
+			notReassigned(o, f, "r", "cfg", "source", "target", "amt", "finalHtlcExpiry")
+			notReassigned(o, pe, "fromVertex", "edge", "toNodeDist")
 			tf := an.LocalNamed("totalFee")
 			guarded(o, pe, w, an.AnyOf("totalFee <= 0 or totalFee <= FeeLimit",
 				an.CmpX(tf, an.LE, an.IntConst(0), ""),
-				an.CmpX(tf, an.LE, an.FieldPath(nil, "FeeLimit"), "")))
+				an.CmpX(tf, an.LE, an.FieldPath(an.Param(1), "FeeLimit"), "")))
 			guarded(o, pe, w, an.Cmp(an.LocalNamed("edgeProbability"), an.NE, an.IntConst(0), "edgeProbability != 0"))
 			guarded(o, pe, w, an.CmpX(an.LocalNamed("incomingCltv"), an.LE, an.LocalNamed("absoluteCltvLimit"), "incomingCltv <= absoluteCltvLimit"))
-			guarded(o, pe, w, an.CmpX(an.LocalNamed("probability"), an.GE, an.FieldPath(nil, "MinProbability"), "probability >= cfg.MinProbability"))
+			guarded(o, pe, w, an.CmpX(an.LocalNamed("probability"), an.GE, an.FieldPath(an.Param(2), "MinProbability"), "probability >= cfg.MinProbability"))
 			guarded(o, pe, w, an.CmpX(an.LocalNamed("routingInfoSize"), an.LE, canonTerm(`MaxRoutingPayloadSize$`), "routingInfoSize <= MaxRoutingPayloadSize"))
-			// definitions
+			// definitions of the locals the guards are written in: one variable
+			// per name, one value each (`var`, `:=`, `=`, `op=` and `++` all count)
 			defs := map[string]string{
 				"amountToSend":       "toNodeDist.netAmountReceived + lnwire.MilliSatoshi(inboundFee)",
 				"totalFee":           "int64(amountToSend) - int64(amt)",
@@ -161,18 +166,24 @@ func runC19(r *an.Run) {
 				"incomingCltv":       "toNodeDist.incomingCltv + int32(timeLockDelta)",
 				"routingInfoSize":    "toNodeDist.routingInfoSize + payloadSize",
 				"minInboundFee":      "-int64(toNodeDist.outboundFee)",
+				"edgeProbability":    "r.ProbabilitySource(fromVertex, toNodeDist.node, amountToSend, edge.capacity)",
+				"probability":        "toNodeDist.probability * edgeProbability",
 			}
 			defSite := map[string]an.Site{}
 			for name, want := range defs {
-				ss := pe.Assigns(an.LocalNamed(name), false)
-				if !need(o, pe, name+" definition", ss, 1) {
-					continue
+				for _, ds := range c19DefinedAs(o, pe, name, "= "+want) {
+					defSite[name] = ds[0].site()
 				}
-				defSite[name] = ss[0]
-				got := an.Text(ss[0].Node.(*ast.AssignStmt).Rhs[0])
-				o.Site("%s := %s", name, got)
-				if got != want || len(ss) != 1 {
-					o.FailAt(pe.ID+"#def-"+name, ss[0].Where(), "%s is %s, expected %s", name, got, want)
+			}
+			c19DefinedAs(o, f, "absoluteCltvLimit", "= uint64(r.CltvLimit) + uint64(finalHtlcExpiry)")
+			// the per-hop payload: zero for the source, else the edge's own size function
+			// for the amount and expiry the hop forwards and the channel it forwards over
+			notSource := an.Cmp(an.Param(0), an.NE, an.LocalNamed("source"), "fromVertex != source")
+			for fm, ds := range c19DefinedAs(o, pe, "payloadSize", "zero", "= edge.hopPayloadSizeFn(amountToSend, uint32(toNodeDist.incomingCltv), edge.policy.ChannelID)") {
+				if fm != "zero" {
+					for _, d := range ds {
+						guarded(o, pe, d.site(), notSource)
+					}
 				}
 			}
 			// the clamp precedes the amount
@@ -198,20 +209,17 @@ func runC19(r *an.Run) {
 					o.Site("clamp at %s precedes %s", pe.Where(clampCond.Pos()), d.String())
 				}
 			}
-			for _, s := range pe.Assigns(an.LocalNamed("outboundFee"), false) {
-				c := an.Text(s.Node.(*ast.AssignStmt).Rhs[0])
-				o.Site("outboundFee = %s", c)
-				if c != "int64(edge.policy.ComputeFee(amountToSend))" {
-					o.FailAt(pe.ID+"#outbound-fee", s.Where(), "the outbound fee is %s", c)
+			for name, want := range map[string]string{
+				"outboundFee":   "int64(edge.policy.ComputeFee(amountToSend))",
+				"timeLockDelta": "edge.policy.TimeLockDelta",
+			} {
+				for fm, ds := range c19DefinedAs(o, pe, name, "zero", "= "+want) {
+					if fm != "zero" {
+						for _, d := range ds {
+							guarded(o, pe, d.site(), notSource)
+						}
+					}
 				}
-				guarded(o, pe, s, an.Cmp(an.Param(0), an.NE, an.LocalNamed("source"), "fromVertex != source"))
-			}
-			for _, s := range pe.Assigns(an.LocalNamed("timeLockDelta"), false) {
-				c := an.Text(s.Node.(*ast.AssignStmt).Rhs[0])
-				if c != "edge.policy.TimeLockDelta" {
-					o.FailAt(pe.ID+"#timelock-delta", s.Where(), "the time lock delta is %s", c)
-				}
-				guarded(o, pe, s, an.Cmp(an.Param(0), an.NE, an.LocalNamed("source"), "fromVertex != source"))
 			}
 			// recorded state
 			for _, cl := range p.CompositeLitsOf(p.LookupType("routing", "nodeWithDist")) {
@@ -225,6 +233,56 @@ func runC19(r *an.Run) {
 					}
 				}
 				o.Site("recorded node state at %s", cl.Where)
+				// what is stored is this literal, unmodified
+				ws := w.Node.(*ast.AssignStmt)
+				if c19LitOf(pe, ws.Rhs[0]) != cl.Node.(*ast.CompositeLit) {
+					o.FailAt(pe.ID+"#stored-state", w.Where(), "the value stored in the distance map (%s) is not the node state built at %s", an.Text(ws.Rhs[0]), cl.Where)
+				} else {
+					for fld, fw := range c19FieldWrites(pe, c19VarObj(pe, ws.Rhs[0])) {
+						o.FailAt(pe.ID+"#state-rewritten-"+fld, pe.Where(fw[0].Pos()), "%s rewrites the recorded %s after the checks were made on the computed value", an.Text(fw[0]), fld)
+					}
+				}
+				if c := pe.Canon(ws.Lhs[0].(*ast.IndexExpr).Index); c != "$lit.p0" {
+					o.FailAt(pe.ID+"#stored-key", w.Where(), "the node state is stored under %s, expected the node the edge comes from", c)
+				}
+			}
+			// the search starts at the target with the HTLC amount, the final
+			// expiry and the size of the final hop's payload
+			nInit := 0
+			for _, cl := range p.CompositeLitsOf(p.LookupType("routing", "nodeWithDist")) {
+				if cl.Fn == nil || cl.Fn.ID != f.ID || (cl.Node.Pos() >= pe.Body.Pos() && cl.Node.End() <= pe.Body.End()) {
+					continue
+				}
+				nInit++
+				lit := cl.Node.(*ast.CompositeLit)
+				got := map[string]string{}
+				for _, el := range lit.Elts {
+					if kv, ok := el.(*ast.KeyValueExpr); ok {
+						got[an.Text(kv.Key)] = f.Canon(kv.Value)
+					}
+				}
+				o.Site("initial node state at %s: routingInfoSize = %s", cl.Where, got["routingInfoSize"])
+				for k, want := range map[string]string{"node": "$p5", "netAmountReceived": "$p6", "incomingCltv": "$p8", "probability": "1", "routingInfoSize": "routing.lastHopPayloadSize($p1, $p8, $p6)"} {
+					if got[k] != want {
+						o.FailAt(f.ID+"#initial-"+k, cl.Where, "the search starts with %s = %s, expected %s", k, got[k], want)
+					}
+				}
+				for k, v := range got {
+					if (k == "outboundFee" || k == "nextHop") && v != "0" && v != "nil" {
+						o.FailAt(f.ID+"#initial-"+k, cl.Where, "the search starts with %s = %s: the target charges no fee and has no next hop", k, v)
+					}
+				}
+				objs, pdefs := c19LocalDefs(f, "partialPath")
+				if len(objs) != 1 || len(pdefs) != 2 || c19AsLit(pdefs[0].Rhs) != lit || an.Text(pdefs[1].Rhs) != "heap.Pop(&nodeHeap).(*nodeWithDist)" {
+					o.FailAt(f.ID+"#expanded-node", cl.Where, "the node being expanded must be the initial state and then the heap minimum; found %d variables and %d definitions of partialPath", len(objs), len(pdefs))
+				} else {
+					for fld, fw := range c19FieldWrites(f, objs[0]) {
+						o.FailAt(f.ID+"#expanded-node-rewritten-"+fld, f.Where(fw[0].Pos()), "%s rewrites the %s of the node being expanded", an.Text(fw[0]), fld)
+					}
+				}
+			}
+			if nInit != 1 {
+				o.FailAt(f.ID+"#initial-state", f.Where(f.Body.Pos()), "expected one initial node state in findPath, found %d", nInit)
 			}
 			// call of processEdge
 			var calls []an.Site
@@ -233,7 +291,7 @@ func runC19(r *an.Run) {
 					calls = append(calls, s)
 				}
 			}
-			if need(o, f, "processEdge call", calls, 1) {
+			if needExactly(o, f, "processEdge call", calls, 1) {
 				s := calls[0]
 				c := s.Node.(*ast.CallExpr)
 				if an.Text(c.Args[0]) != "fromNode" || an.Text(c.Args[1]) != "edge" || an.Text(c.Args[2]) != "partialPath" {
@@ -243,11 +301,13 @@ func runC19(r *an.Run) {
 				guarded(o, f, s, an.IsNil(an.LocalNamed("fromFeatures"), false, "fromFeatures != nil"))
 				guarded(o, f, s, an.AnyOf("route to self or fromNode != target", an.Truth(an.LocalNamed("routeToSelf"), true, ""), an.Cmp(an.LocalNamed("fromNode"), an.NE, an.LocalNamed("target"), "")))
 				guarded(o, f, s, an.AnyOf("no last-hop restriction, not at the target, or fromNode is the required last hop",
-					an.IsNil(an.FieldPath(nil, "LastHop"), true, ""),
+					an.IsNil(an.FieldPath(an.Param(1), "LastHop"), true, ""),
 					an.Cmp(an.LocalNamed("pivot"), an.NE, an.LocalNamed("target"), ""),
-					an.Cmp(an.LocalNamed("fromNode"), an.EQ, an.Any(), "")))
+					an.Cmp(an.LocalNamed("fromNode"), an.EQ, an.FieldPath(an.Param(1), "LastHop"), "")))
+				c19DefinedAs(o, f, "pivot", "= partialPath.node")
+				c19DefinedAs(o, f, "routeToSelf", "= source == target")
 				ge := f.Calls(an.CalleeIs(rt+"edgeUnifier.getEdge"), false)
-				if need(o, f, "getEdge", ge, 1) {
+				if needExactly(o, f, "getEdge", ge, 1) {
 					a := f.ArgCanon(ge[0])
 					o.Site("getEdge%v", a)
 					if an.Text(callArg(ge[0], 0)) != "netAmountReceived" || an.Text(callArg(ge[0], 2)) != "partialPath.outboundFee" {
@@ -268,6 +328,47 @@ func runC19(r *an.Run) {
 				vr := lf.Calls(an.CalleeNamed("ValidateRequired"), false)
 				vd := lf.Calls(an.CalleeNamed("ValidateDeps"), false)
 				if len(vr) == 1 && len(vd) == 1 {
+					// what is validated is what is returned and cached; a vector
+					// enters the cache only validated (the cached return below is
+					// exempt from the validation rule)
+					validated := c19VarObj(lf, callArg(vr[0], 0))
+					if validated == nil || c19VarObj(lf, callArg(vd[0], 0)) != validated {
+						o.FailAt(lf.ID+"#validated-vector", vr[0].Where(), "ValidateRequired(%s) and ValidateDeps(%s) must examine the same fetched vector", an.Text(callArg(vr[0], 0)), an.Text(callArg(vd[0], 0)))
+					}
+					var cacheObj types.Object
+					isCache := func(e ast.Expr) bool {
+						m, ok := lf.Info().TypeOf(e).Underlying().(*types.Map)
+						return ok && types.Identical(m.Elem(), lf.Info().TypeOf(callArg(vr[0], 0)))
+					}
+					for _, v := range lf.Graph().V {
+						as, ok := v.Node.(*ast.AssignStmt)
+						if !ok {
+							continue
+						}
+						for i, l := range as.Lhs {
+							ix, ok := ast.Unparen(l).(*ast.IndexExpr)
+							if !ok || len(as.Lhs) != len(as.Rhs) || !isCache(ix.X) {
+								continue
+							}
+							cacheObj = c19VarObj(lf, ix.X)
+							cs := an.Site{Fn: lf, V: v, Node: as}
+							o.Site("feature cache write %s", cs.String())
+							if c := lf.Canon(ix.Index); c != "$lit.p0" {
+								o.FailAt(lf.ID+"#cache-key", cs.Where(), "the feature cache is written under %s, expected the node asked for", c)
+							}
+							if an.IsNilIdent(lf.Info(), as.Rhs[i]) {
+								continue
+							}
+							if c19VarObj(lf, as.Rhs[i]) != validated {
+								o.FailAt(lf.ID+"#cache-value", cs.Where(), "the feature cache stores %s, which is not the validated vector", an.Text(as.Rhs[i]))
+							}
+							mustPass(o, lf, "feature.ValidateRequired", vr, an.OkErrNil, []an.Site{cs})
+							mustPass(o, lf, "feature.ValidateDeps", vd, an.OkErrNil, []an.Site{cs})
+						}
+					}
+					if cacheObj == nil {
+						o.Site("%s: no feature cache", lf.ID)
+					}
 					for _, s := range lf.Returns() {
 						rs := s.Node.(*ast.ReturnStmt)
 						if an.IsNilIdent(lf.Info(), rs.Results[0]) || !an.IsNilIdent(lf.Info(), rs.Results[1]) {
@@ -275,6 +376,9 @@ func runC19(r *an.Run) {
 						}
 						if ok, _ := lf.Guarded(s, an.Truth(an.LocalNamed("ok"), true, "")); ok {
 							continue // cached
+						}
+						if c19VarObj(lf, rs.Results[0]) != validated {
+							o.FailAt(lf.ID+"#returned-vector", s.Where(), "%s returns %s, which is not the validated vector", lf.ID, an.Text(rs.Results[0]))
 						}
 						mustPass(o, lf, "feature.ValidateRequired", vr, an.OkErrNil, []an.Site{s})
 						mustPass(o, lf, "feature.ValidateDeps", vd, an.OkErrNil, []an.Site{s})
@@ -331,64 +435,129 @@ func runC19(r *an.Run) {
 		})
 
 	r.Obl("route-recomputation", "ROLE",
-		"newRoute: a non-final hop forwards the next hop's incoming amount; its fee is ComputeFee of the outgoing edge on that amount plus the inbound fee of the incoming edge on (amount + outbound fee), floored at zero; the amount entering the hop is amount + fee; the time lock handed to the hop is the running total, which then grows by the outgoing edge's TimeLockDelta; the totals given to NewRouteFromHops are the first hop's incoming amount and the final running time lock; Route.TotalFees / HopFee / ReceiverAmt are differences of those per-hop amounts; a channel update applied to a hint edge (UpdateAdditionalEdge) replaces every policy term the fee and time lock computations read, after its signature verified",
+		"newRoute: the final hop forwards finalHop.amt at fee 0 and is handed the running time lock (start: currentHeight) after the final delta was added; a non-final hop forwards the next hop's incoming amount; its fee is ComputeFee of the outgoing edge on that amount plus the inbound fee of the incoming edge on (amount + outbound fee), floored at zero; the amount entering the hop is amount + fee; the time lock handed to the hop is the running total, which then grows by the outgoing edge's TimeLockDelta; each of these locals is a single variable that receives values in these forms only, the final-hop forms below i == len(pathEdges)-1 and the forwarding forms below its negation; each hop is put in front of the hops built so far; the totals given to NewRouteFromHops are the first hop's incoming amount and the final running time lock; Route.TotalFees / HopFee / ReceiverAmt are differences of those per-hop amounts, HopFee being 0 only when nothing comes in and in-out only when both are set; a channel update applied to a hint edge (UpdateAdditionalEdge) replaces every policy term the fee and time lock computations read, after its signature verified",
 		"a route whose stated totals differ from the sum of its hops pays a different fee than pathfinding accepted, or is rejected by the first node", 12,
 		func(o *an.Obl) {
 			f := p.Func(rt + "newRoute")
-			wantDef := map[string][]string{
-				"outboundFee": {"pathEdges[i + 1].policy.ComputeFee(amtToForward)"},
-				"inboundFee":  {"pathEdges[i].inboundFees.CalcFee(amtToForward + outboundFee)"},
+			// the parameters the forms below are written in (pathEdges is trimmed
+			// of the blinded dummy hop on entry and is read by index only)
+			notReassigned(o, f, "sourceVertex", "currentHeight", "finalHop", "blindedPathSet")
+			lastIdx := canonTerm(`^\(len\(\$p1\) - 1\)$`)
+			last := an.CmpX(an.LocalNamed("i"), an.EQ, lastIdx, "i == len(pathEdges)-1 (final hop)")
+			notLast := an.CmpX(an.LocalNamed("i"), an.NE, lastIdx, "i != len(pathEdges)-1 (forwarding hop)")
+			// name -> form ("<tok> <value>") -> branch of the per-hop computation
+			// the form belongs to. Every name is one variable (a `:=` that
+			// shadows it computes a value nobody reads), receives values in
+			// these forms only (`var x = v`, `=`, `op=`, `++` all count) and each
+			// form sits in its own branch.
+			forms := map[string]map[string]string{
+				"fee":                {"= 0": "final|floor", "= int64(outboundFee) + inboundFee": "forward"},
+				"amtToForward":       {"= finalHop.amt": "final", "= nextIncomingAmount": "forward"},
+				"nextIncomingAmount": {"= amtToForward + lnwire.MilliSatoshi(fee)": "every"},
+				"outgoingTimeLock":   {"= totalTimeLock": "final+forward"},
+				"outboundFee":        {"= pathEdges[i + 1].policy.ComputeFee(amtToForward)": "forward"},
+				"inboundFee":         {"= pathEdges[i].inboundFees.CalcFee(amtToForward + outboundFee)": "forward"},
+				"totalTimeLock": {"= currentHeight": "start", "+= uint32(finalHop.cltvDelta)": "final", "+= uint32(blindedPathSet.FinalCLTVDelta())": "final",
+					"+= uint32(pathEdges[i + 1].policy.TimeLockDelta)": "forward"},
 			}
-			for name, want := range wantDef {
-				for _, s := range f.Assigns(an.LocalNamed(name), false) {
-					got := an.Text(s.Node.(*ast.AssignStmt).Rhs[0])
-					o.Site("%s := %s", name, got)
-					if got != want[0] {
-						o.FailAt(f.ID+"#"+name, s.Where(), "%s is %s, expected %s", name, got, want[0])
-					}
+			var names []string
+			for n := range forms {
+				names = append(names, n)
+			}
+			sortStrings(names)
+			nZero := 0
+			for _, name := range names {
+				var fl []string
+				for fm := range forms[name] {
+					fl = append(fl, fm)
 				}
-			}
-			allowed := map[string]map[string]bool{
-				"fee":                {"0": true, "int64(outboundFee) + inboundFee": true},
-				"amtToForward":       {"finalHop.amt": true, "nextIncomingAmount": true},
-				"nextIncomingAmount": {"amtToForward + lnwire.MilliSatoshi(fee)": true},
-				"outgoingTimeLock":   {"totalTimeLock": true},
-				"totalTimeLock":      {"currentHeight": true, "uint32(finalHop.cltvDelta)": true, "uint32(blindedPathSet.FinalCLTVDelta())": true, "uint32(pathEdges[i + 1].policy.TimeLockDelta)": true},
-			}
-			for name, okSet := range allowed {
-				n := 0
-				for _, v := range f.Graph().V {
-					switch x := v.Node.(type) {
-					case *ast.AssignStmt:
-						if len(x.Lhs) == 1 && an.Text(x.Lhs[0]) == name && len(x.Rhs) == 1 {
-							n++
-							got := an.Text(x.Rhs[0])
-							o.Site("%s %s %s", name, x.Tok, got)
-							if !okSet[got] {
-								o.FailAt(f.ID+"#"+name, f.Where(x.Pos()), "%s %s %s is not one of the expected forms", name, x.Tok, got)
+				sortStrings(fl)
+				for fm, ds := range c19DefinedAs(o, f, name, append([]string{"zero"}, fl...)...) {
+					branch := forms[name][fm]
+					nFinal, nForward := 0, 0
+					for _, d := range ds {
+						if d.Tok == "zero" {
+							continue
+						}
+						st := d.site()
+						if d.Fn != f || st.V == nil {
+							o.FailAt(f.ID+"#"+name+"-in-closure", f.Where(d.Node.Pos()), "%s %s is assigned inside a function literal", name, fm)
+							continue
+						}
+						isFinal, _ := f.Guarded(st, last)
+						isForward, _ := f.Guarded(st, notLast)
+						if isFinal {
+							nFinal++
+						}
+						if isForward {
+							nForward++
+						}
+						switch branch {
+						case "final":
+							guarded(o, f, st, last)
+						case "forward":
+							guarded(o, f, st, notLast)
+						case "final|floor":
+							nZero++
+							if !isFinal {
+								guarded(o, f, st, notLast)
+								guarded(o, f, st, an.CmpX(an.LocalNamed("fee"), an.LT, an.IntConst(0), "fee < 0"))
 							}
-							if name == "fee" && got == "0" {
-								s := an.Site{Fn: f, V: v, Node: x}
-								if fin, _ := f.Guarded(s, an.Cmp(an.LocalNamed("i"), an.EQ, an.Any(), "")); !fin {
-									guarded(o, f, s, an.CmpX(an.LocalNamed("fee"), an.LT, an.IntConst(0), "fee < 0"))
-								}
+						case "every", "start":
+							if isFinal || isForward || len(ds) != 1 {
+								o.FailAt(f.ID+"#"+name+"-branch", st.Where(), "%s %s must be computed once, for every hop; found it under a final/forwarding-hop test", name, fm)
+							}
+						case "final+forward":
+							if !isFinal && !isForward {
+								o.FailAt(f.ID+"#"+name+"-branch", st.Where(), "%s %s is outside the final / forwarding hop branches", name, fm)
 							}
 						}
 					}
-				}
-				if n == 0 && name != "totalTimeLock" {
-					o.FailAt(f.ID+"#no-"+name, f.Where(f.Body.Pos()), "cannot find the computation of %s", name)
+					if (branch == "final+forward" || branch == "final|floor") && (nFinal != 1 || nForward != 1) {
+						o.FailAt(f.ID+"#"+name+"-branches", f.Where(f.Body.Pos()), "expected %s %s once for the final hop and once for a forwarding hop, found %d and %d", name, fm, nFinal, nForward)
+					}
+					if (branch == "final" || branch == "forward") && len(ds) != 1 {
+						o.FailAt(f.ID+"#"+name+"-count", f.Where(f.Body.Pos()), "expected one %s %s, found %d", name, fm, len(ds))
+					}
+					switch fm {
+					case "+= uint32(finalHop.cltvDelta)":
+						for _, d := range ds {
+							guarded(o, f, d.site(), an.IsNil(an.Param(4), true, "blindedPathSet == nil"))
+						}
+					case "+= uint32(blindedPathSet.FinalCLTVDelta())":
+						for _, d := range ds {
+							guarded(o, f, d.site(), an.IsNil(an.Param(4), false, "blindedPathSet != nil"))
+						}
+					}
 				}
 			}
 			// the floor of the hop fee exists (final hop: 0; other hops: 0 below fee < 0)
-			nZero := 0
-			for _, v := range f.Graph().V {
-				if x, ok := v.Node.(*ast.AssignStmt); ok && len(x.Lhs) == 1 && an.Text(x.Lhs[0]) == "fee" && an.Text(x.Rhs[0]) == "0" {
-					nZero++
-				}
-			}
 			if nZero != 2 {
 				o.FailAt(f.ID+"#fee-floor", f.Where(f.Body.Pos()), "expected two places that set the hop fee to zero (final hop, negative total floored), found %d", nZero)
+			}
+			// hops are prepended: the walk runs from the last edge to the first
+			// and the route lists them from the first to the last
+			hopObjs, hopDefs := c19LocalDefs(f, "hops")
+			nPrepend := 0
+			for _, d := range hopDefs {
+				if d.Tok == "zero" {
+					continue
+				}
+				c, _ := d.Rhs.(*ast.CallExpr)
+				ok := len(hopObjs) == 1 && d.Tok == "=" && c != nil && isAppend(f, c) && c.Ellipsis.IsValid() && len(c.Args) == 2 && c19VarObj(f, c.Args[1]) == hopObjs[0]
+				if ok {
+					sl := c19AsLit(c.Args[0])
+					ok = sl != nil && len(sl.Elts) == 1 && c19LitOf(f, sl.Elts[0]) != nil && an.TypeID(f.Info().TypeOf(c19LitOf(f, sl.Elts[0]))) == "routing/route.Hop"
+				}
+				o.Site("hops %s", d.form())
+				if !ok {
+					o.FailAt(f.ID+"#hops-order", f.Where(d.Node.Pos()), "hops %s: expected the hop built in this iteration to be put in front of the hops built so far", d.form())
+					continue
+				}
+				nPrepend++
+			}
+			if nPrepend != 1 {
+				o.FailAt(f.ID+"#hops", f.Where(f.Body.Pos()), "expected one place that prepends the current hop to hops, found %d", nPrepend)
 			}
 			// order inside one iteration: a forwarding hop is handed the running
 			// time lock before its own delta is added; the final hop is handed
@@ -430,7 +599,7 @@ func runC19(r *an.Run) {
 				return true
 			})
 			nr := f.Calls(an.CalleeNamed("NewRouteFromHops"), false)
-			if need(o, f, "NewRouteFromHops", nr, 1) {
+			if needExactly(o, f, "NewRouteFromHops", nr, 1) {
 				c := nr[0].Node.(*ast.CallExpr)
 				o.Site("NewRouteFromHops(%s, %s, ...)", an.Text(c.Args[0]), an.Text(c.Args[1]))
 				if an.Text(c.Args[0]) != "nextIncomingAmount" || an.Text(c.Args[1]) != "totalTimeLock" || an.Text(c.Args[3]) != "hops" {
@@ -490,9 +659,20 @@ func runC19(r *an.Run) {
 			for _, s := range hf.Returns() {
 				c := an.Text(s.Node.(*ast.ReturnStmt).Results[0])
 				o.Site("HopFee returns %s", c)
-				if c != "0" && c != "incomingAmt - outgoingAmt" && c != "incomingAmt - r.ReceiverAmt()" {
+				in, out := an.LocalNamed("incomingAmt"), an.LocalNamed("outgoingAmt")
+				switch c {
+				case "0":
+					// a blinded intermediate hop: nothing comes in
+					guarded(o, hf, s, an.Cmp(in, an.EQ, an.IntConst(0), "incomingAmt == 0"))
+				case "incomingAmt - outgoingAmt":
+					guarded(o, hf, s, an.Cmp(in, an.NE, an.IntConst(0), "incomingAmt != 0"))
+					guarded(o, hf, s, an.Cmp(out, an.NE, an.IntConst(0), "outgoingAmt != 0"))
+				case "incomingAmt - r.ReceiverAmt()":
+					guarded(o, hf, s, an.Cmp(in, an.NE, an.IntConst(0), "incomingAmt != 0"))
+				default:
 					o.FailAt(hf.ID+"#returns", s.Where(), "HopFee returns %s", c)
 				}
+				onlyGuards(o, hf, s, []string{`^!?\(?(incomingAmt|outgoingAmt) [!=]= 0\)?$`}, "HopFee case")
 			}
 			for id, want := range map[string][]string{
 				rr + "TotalFees":   {"0", "($recv.TotalAmount - $recv.ReceiverAmt())"},
@@ -510,10 +690,13 @@ func runC19(r *an.Run) {
 		})
 
 	r.Obl("hint-edge-update-replaces-all-terms", "TABLE",
-		"paymentSession.UpdateAdditionalEdge returns true only after VerifyChannelUpdateSignature(msg, pubKey) succeeded and after policy.TimeLockDelta, policy.FeeBaseMSat and policy.FeeProportionalMillionths (the terms ComputeFee and the time lock computation read) were each assigned from the update's TimeLockDelta, BaseFee and FeeRate",
+		"paymentSession.UpdateAdditionalEdge returns true only after VerifyChannelUpdateSignature(msg, pubKey) succeeded and after TimeLockDelta, FeeBaseMSat and FeeProportionalMillionths (the terms ComputeFee and the time lock computation read) of the policy it was handed (the parameter itself, never re-pointed to a copy) were each assigned from the update's TimeLockDelta, BaseFee and FeeRate",
 		"a hint edge that keeps a stale term after the forwarding node announced a new policy is priced wrongly on every retry: the hop is left less than its policy demands", 4,
 		func(o *an.Obl) {
 			f := p.Func("routing.paymentSession.UpdateAdditionalEdge")
+			// the policy written is the caller's edge (not a copy), the terms
+			// come from the verified message
+			notReassigned(o, f, "msg", "pubKey", "policy")
 			var succ []an.Site
 			for _, s := range f.Returns() {
 				if an.Text(s.Node.(*ast.ReturnStmt).Results[0]) == "true" {
@@ -548,7 +731,7 @@ func runC19(r *an.Run) {
 					o.FailAt(f.ID+"#unknown-term-"+t, "", "ComputeFee reads policy.%s, which the table of update terms does not cover", t)
 					continue
 				}
-				as := f.Assigns(an.Field("graph/db/models.CachedEdgePolicy", t, nil), false)
+				as := f.Assigns(an.Field("graph/db/models.CachedEdgePolicy", t, an.Param(2)), false)
 				o.Site("term %s: %d assignments", t, len(as))
 				if len(as) == 0 {
 					o.FailAt(f.ID+"#stale-"+t, f.Where(f.Body.Pos()), "the update does not replace policy.%s", t)
@@ -575,7 +758,7 @@ func runC19(r *an.Run) {
 					adds = append(adds, an.Site{Fn: f, V: v, Node: as})
 				}
 			}
-			if need(o, f, "append to unifier.edges", adds, 1) {
+			if needExactly(o, f, "append to unifier.edges", adds, 1) {
 				guarded(o, f, adds[0], an.AnyOf("not a local channel, no restriction, or channel in the restriction map",
 					an.Truth(an.LocalNamed("localChan"), false, ""),
 					an.IsNil(an.FieldPath(an.Recv(), "outChanRestr"), true, ""),
